@@ -394,14 +394,11 @@ class C03Progress(Base):
                    f'automatic shutdown while jobs {live[:4]} are live',
                    {'live': live})
 
-    def after_iter(self, drv, pool_snap):
-        schd = drv.schd
+    def on_stall_decided(self, drv, pool_snap):
+        """Called where the scheduler sets its stalled flag (start of an
+        iteration, before that iteration's messages, or its end)."""
         gt = self.gt
-        # stall report
-        for ev in ():
-            pass
-        if schd.is_stalled and not getattr(self, '_stall_checked', False):
-            self._stall_checked = True
+        if True:
             self.n['stall_checks'] += 1
             facts = self.pool_facts()
             pts = [int(t['point']) for t in pool_snap]
@@ -432,8 +429,10 @@ class C03Progress(Base):
                                {'task': t, 'model_limit': L, 'pool': [
                                    (x['id'], x['status'], x['runahead'],
                                     x['outputs']) for x in pool_snap]})
-        if not schd.is_stalled:
-            self._stall_checked = False
+
+    def after_iter(self, drv, pool_snap):
+        schd = drv.schd
+        gt = self.gt
         # bounded readiness latency
         if schd.is_paused or schd.stop_mode or schd.reload_pending:
             self.ready_for.clear()
